@@ -75,7 +75,7 @@ PROPS = {
         "rule": "case = one scripted scenario (event or future) with 1..3 waiter threads, each with its own timeout value / representation / clock; non-trivial = every case (each performs at least one timed wait); distinct by full spec",
         "required_classes": ["script:event-timeout", "script:event-notify-race", "script:event-long-early-notify", "script:event-notify-before-futex",
                              "script:future-notstarted-nondeferred", "script:future-notstarted-deferred", "script:future-running",
-                             "script:future-start-before-futex", "script:deferred-clause", "script:then-deferred-clause",
+                             "script:future-start-before-futex", "script:deferred-clause", "script:then-deferred-clause", "script:deferred-clause-max-timeout", "deferred-clause:max-timeout",
                              "status-changed-before-futex", "timed-wait-ran-functor", "inline-forbidden-and-not-started",
                              "to:zero", "to:negative", "to:sub-us", "to:sub-ms", "to:ms", "to:long",
                              "for", "until:steady", "until:system", "timeout-seen", "ready-seen", "spurious-futex"],
